@@ -30,6 +30,9 @@ type c07Case struct {
 	// [4,n] next n dials fail | [5,n] next n hooks fail | [6,n] next n sends fail | [7,sid,n] next n writes on sid's socket fail
 	// [8] connection lost | [9,n] the next n logger.Close calls take 10 ms
 	// [10,ms] the next UDP() call takes ms of the fake clock | [11,ms] the next Hook() call takes ms
+	// [1,sid,1,n] scripted read of a datagram with an n-byte payload (n = 0: an empty UDP datagram; any n != 8 travels with its
+	//             tag in the source address) | [12,n,ms] the first n socket Close() calls of the final cleanup take up to ms each
+	//             (fake clock; see slowSockClose) so that sweeper ticks fall inside the final cleanup
 }
 
 func TestVerifC07(t *testing.T) {
@@ -145,8 +148,18 @@ func c07Run(c c07Case, res map[string]any) {
 			env.recv <- vfRecv{msg: m}
 		case 1:
 			if cn := latest(uint32(op[1])); cn != nil {
+				env.mu.Lock()
+				closing := cn.closing
+				env.mu.Unlock()
+				if closing {
+					break // nothing may wake the reply loop of a socket whose slow Close() is asleep (connLock is held)
+				}
 				seq++
-				cn.rd <- vfRead{from: "remote.example:53", tag: int64(cn.sock)<<24 | seq, err: op[2] == 0}
+				r := vfRead{from: "remote.example:53", tag: int64(cn.sock)<<24 | seq, err: op[2] == 0}
+				if len(op) > 3 && op[3] != 8 && !r.err {
+					r.short, r.n = true, op[3]
+				}
+				cn.rd <- r
 			}
 		case 2:
 			time.Sleep(time.Duration(op[1]) * time.Millisecond)
@@ -182,6 +195,10 @@ func c07Run(c c07Case, res map[string]any) {
 		case 11:
 			env.mu.Lock()
 			env.slowHook = int64(op[1])
+			env.mu.Unlock()
+		case 12:
+			env.mu.Lock()
+			env.slowSock, env.slowSockMs = op[1], int64(op[2])
 			env.mu.Unlock()
 		case 8:
 			if !lost {
@@ -244,6 +261,8 @@ func c07Run(c c07Case, res map[string]any) {
 	c07Fresh(log, slack, fail)
 	res["log"] = log
 	res["overlaps"] = env.overlaps
+	res["sockslept"] = env.sockSlept
+	res["sockticks"] = env.sockTicks
 	res["count"] = count
 	res["closes"] = closes
 	res["ok"] = ok
@@ -255,6 +274,7 @@ func c07Run(c c07Case, res map[string]any) {
 func c07Verdict(log []vfEv, timeout int64, slack int64, fail func(string)) {
 	type sk struct {
 		owner  uint32
+		pend   *vfEv // datagram read from the socket (ReadFrom returned it with a nil error) and not yet handed to SendMessage
 		dialT  int64
 		arrT   int64 // arrival of the datagram the dial belongs to (= dialT unless the hook / dial was slow)
 		closeT int64
@@ -297,12 +317,31 @@ func c07Verdict(log []vfEv, timeout int64, slack int64, fail func(string)) {
 				fail("write succeeded on a closed socket")
 			}
 		case "read":
-			if ev.Ok && socks[ev.Sock] != nil {
-				socks[ev.Sock].acts = append(socks[ev.Sock].acts, ev.T)
+			if s := socks[ev.Sock]; s != nil {
+				// every datagram ReadFrom returned (whatever its length, 0 included) goes back to the client before the
+				// reply loop reads again (or gives up: a read error is followed by the close)
+				if s.pend != nil {
+					fail(notRelayed(s.pend, s.owner, "the reply loop went on to the next ReadFrom"))
+					s.pend = nil
+				}
+				if ev.Ok {
+					s.acts = append(s.acts, ev.T)
+					e2 := ev
+					s.pend = &e2
+				}
 			}
 		case "send":
 			if s := socks[ev.Sock]; s == nil || s.owner != ev.Sid {
 				fail(fmt.Sprintf("packet read from socket %d sent back tagged with session %d", ev.Sock, ev.Sid))
+			}
+			if s := socks[ev.Sock]; s != nil {
+				switch {
+				case s.pend == nil:
+					fail(fmt.Sprintf("SendMessage (session %d, tag %d, %d bytes) for socket %d without a datagram read from it", ev.Sid, ev.Tag, ev.NB-1, ev.Sock))
+				case s.pend.Tag != ev.Tag || s.pend.NB != ev.NB:
+					fail(fmt.Sprintf("datagram read from socket %d (tag %d, %d bytes) was sent back as tag %d, %d bytes", ev.Sock, s.pend.Tag, s.pend.NB-1, ev.Tag, ev.NB-1))
+				}
+				s.pend = nil
 			}
 		case "close":
 			if s := socks[ev.Sock]; s != nil {
@@ -320,6 +359,11 @@ func c07Verdict(log []vfEv, timeout int64, slack int64, fail func(string)) {
 			}
 		case "recverr":
 			lostT = ev.T
+		}
+	}
+	for _, s := range socks {
+		if s.pend != nil {
+			fail(notRelayed(s.pend, s.owner, "nothing was sent by the end of the history"))
 		}
 	}
 	if lostT < 0 {
@@ -359,6 +403,11 @@ func c07Verdict(log []vfEv, timeout int64, slack int64, fail func(string)) {
 			}
 		}
 	}
+}
+
+func notRelayed(rd *vfEv, owner uint32, how string) string {
+	return fmt.Sprintf("datagram of %d byte(s) (tag %d) read from socket %d of session %d at %d ms was not sent back to the client tagged with the session id: %s",
+		rd.NB-1, rd.Tag, rd.Sock, owner, rd.T, how)
 }
 
 // The clauses "a later datagram with the same id starts a fresh session on a new socket" and "no socket is
